@@ -59,6 +59,8 @@ type Relay struct {
 	Regs     [][]*builderapi.VersionedSignedValidatorRegistration
 	Unblinds []*builderapi.UnblindProposalOpts
 	RegErr   bool
+	// RegHold, when set, is called when a registration request arrives, before it is recorded; an error aborts the request.
+	RegHold func(ctx context.Context) error
 	// UnblindFn decides the unblinding reply (nil: error).
 	UnblindFn func(ctx context.Context, opts *builderapi.UnblindProposalOpts) (*consensusapi.VersionedSignedProposal, error)
 }
@@ -161,7 +163,16 @@ func (r *Relay) BuilderBid(ctx context.Context, _ *builderapi.BuilderBidOpts) (*
 	return &builderapi.Response[*builderspec.VersionedSignedBuilderBid]{Data: r.BuildBid(cur), Metadata: map[string]any{}}, nil
 }
 
-func (r *Relay) SubmitValidatorRegistrations(_ context.Context, opts *builderapi.SubmitValidatorRegistrationsOpts) error {
+func (r *Relay) SubmitValidatorRegistrations(ctx context.Context, opts *builderapi.SubmitValidatorRegistrationsOpts) error {
+	r.mu.Lock()
+	hold := r.RegHold
+	r.mu.Unlock()
+	if hold != nil {
+		// a request that is given up (its context ends) before the relay has taken it never reaches the relay
+		if err := hold(ctx); err != nil {
+			return err
+		}
+	}
 	r.mu.Lock()
 	r.Regs = append(r.Regs, opts.Registrations)
 	fail := r.RegErr
@@ -207,5 +218,12 @@ var _ = builderv1.ValidatorRegistration{}
 func (r *Relay) SetUnblindFn(f func(ctx context.Context, opts *builderapi.UnblindProposalOpts) (*consensusapi.VersionedSignedProposal, error)) {
 	r.mu.Lock()
 	r.UnblindFn = f
+	r.mu.Unlock()
+}
+
+// SetRegHold installs (or with nil removes) the hold on registration requests.
+func (r *Relay) SetRegHold(f func(ctx context.Context) error) {
+	r.mu.Lock()
+	r.RegHold = f
 	r.mu.Unlock()
 }
